@@ -21,12 +21,6 @@ From SV Require Import Model.Common.
 From SV Require Model.Utf8 Model.Parser Model.ParseTime Model.Redact Model.Template Model.Extractor Model.Transforms
                Model.Routing Model.Serializer Model.PipelineSerializer Model.Packer Model.Framing.
 
-Module Ps := SV.Model.Parser.
-Module T := SV.Model.Transforms.
-Module R := SV.Model.Routing.
-Module S := SV.Model.Serializer.
-Module K := SV.Model.Packer.
-Module F := SV.Model.Framing.
 
 Definition pbind {A B} (o : outcome A) (f : A -> outcome B) : outcome B :=
   match o with
@@ -54,7 +48,7 @@ Record field_locs := {
 
 (* loc.Set(fields, v): fields[loc] = v *)
 Definition set_checked (fields : list bytes) (loc : nat) (v : bytes) : outcome (list bytes) :=
-  if (loc <? length fields)%nat then Ok (T.set_nth fields loc v) else Panic site_field.
+  if (loc <? length fields)%nat then Ok (Transforms.set_nth fields loc v) else Panic site_field.
 
 (* loc.Get(fields): fields[loc] *)
 Definition get_checked (fields : list bytes) (loc : nat) : outcome bytes :=
@@ -64,67 +58,67 @@ Definition get_checked (fields : list bytes) (loc : nat) : outcome bytes :=
   end.
 
 (* Parse: facility, level, the six header tokens, then the message; a new record has maxFields empty fields *)
-Definition place (nfields : nat) (l : field_locs) (r : Ps.record) : outcome (list bytes) :=
-  f <~ set_checked (repeat [] nfields) (l_facility l) (Ps.f_facility r) ;;
-  f <~ set_checked f (l_level l) (Ps.f_level r) ;;
-  f <~ set_checked f (l_time l) (Ps.f_time r) ;;
-  f <~ set_checked f (l_host l) (Ps.f_host r) ;;
-  f <~ set_checked f (l_app l) (Ps.f_app r) ;;
-  f <~ set_checked f (l_pid l) (Ps.f_pid r) ;;
-  f <~ set_checked f (l_source l) (Ps.f_source r) ;;
-  f <~ set_checked f (l_extradata l) (Ps.f_extradata r) ;;
-  set_checked f (l_log l) (Ps.f_log r).
+Definition place (nfields : nat) (l : field_locs) (r : Parser.record) : outcome (list bytes) :=
+  f <~ set_checked (repeat [] nfields) (l_facility l) (Parser.f_facility r) ;;
+  f <~ set_checked f (l_level l) (Parser.f_level r) ;;
+  f <~ set_checked f (l_time l) (Parser.f_time r) ;;
+  f <~ set_checked f (l_host l) (Parser.f_host r) ;;
+  f <~ set_checked f (l_app l) (Parser.f_app r) ;;
+  f <~ set_checked f (l_pid l) (Parser.f_pid r) ;;
+  f <~ set_checked f (l_source l) (Parser.f_source r) ;;
+  f <~ set_checked f (l_extradata l) (Parser.f_extradata r) ;;
+  set_checked f (l_log l) (Parser.f_log r).
 
 (* ================================================================================================ *)
 (* 2. transforms: C15's interpreter extended by the two node kinds it leaves out                     *)
 
-(* A program is a tree whose leaves are C15 transforms ([XBase t] runs [T.run_tf t], whatever t is - also a whole
+(* A program is a tree whose leaves are C15 transforms ([XBase t] runs [Transforms.run_tf t], whatever t is - also a whole
    C15 sub-program) or one of the two transforms with models of their own, parseTime (C13) and redactEmail (C14);
    the inner nodes if / switch / block repeat C15's control flow so that the new leaves can sit anywhere. *)
 Inductive xtf :=
-| XBase (t : T.tf)
-| XIf (m : T.matcher) (th : xtfs)
+| XBase (t : Transforms.tf)
+| XIf (m : Transforms.matcher) (th : xtfs)
 | XSwitch (cs : xcases)
 | XBlock (b : xtfs)
 | XParseTime (loc : nat) (label : bytes)      (* key, errorLabel *)
 | XRedact (loc : nat) (label : bytes)         (* key, metricLabel *)
 with xtfs := XNil | XCons (t : xtf) (ts : xtfs)
-with xcases := XKNil | XKCons (m : T.matcher) (th : xtfs) (ks : xcases).
+with xcases := XKNil | XKCons (m : Transforms.matcher) (th : xtfs) (ks : xcases).
 
 (* the record as the transforms see it: C15's record and record.Timestamp as (unix seconds, nanoseconds) *)
-Definition prec := (T.rec * (Z * Z))%type.
+Definition prec := (Transforms.rec * (Z * Z))%type.
 
 Section Run.
-Variable O : T.oracles.       (* Go's regexp and glob: trusted libraries *)
+Variable O : Transforms.oracles.       (* Go's regexp and glob: trusted libraries *)
 Variable local_off : Z.       (* offset of time.Local *)
 
 (* parseTimeTransform.Transform *)
-Definition run_parse_time (loc : nat) (label : bytes) (cs : T.counters) (p : prec) : outcome (T.counters * prec) :=
+Definition run_parse_time (loc : nat) (label : bytes) (cs : Transforms.counters) (p : prec) : outcome (Transforms.counters * prec) :=
   let (r, ts) := p in
-  v <~ get_checked (T.r_fields r) loc ;;
+  v <~ get_checked (Transforms.r_fields r) loc ;;
   match ParseTime.transform_parse_time local_off v with
   | ParseTime.TpSkip => Ok (cs, p)
   | ParseTime.TpSet u n => Ok (cs, (r, (u, n)))
-  | ParseTime.TpError => Ok (T.cnt_add cs label 1 (T.r_rawlen r), p)
+  | ParseTime.TpError => Ok (Transforms.cnt_add cs label 1 (Transforms.r_rawlen r), p)
   | ParseTime.TpPanic s => Panic s
   end.
 
 (* redactEmailTransform.Transform *)
-Definition run_redact (loc : nat) (label : bytes) (cs : T.counters) (p : prec) : outcome (T.counters * prec) :=
+Definition run_redact (loc : nat) (label : bytes) (cs : Transforms.counters) (p : prec) : outcome (Transforms.counters * prec) :=
   let (r, ts) := p in
-  v <~ get_checked (T.r_fields r) loc ;;
+  v <~ get_checked (Transforms.r_fields r) loc ;;
   tr <~ Redact.transform_redact v ;;
   if Redact.tr_counted tr
-  then Ok (T.cnt_add cs label 1 (T.r_rawlen r), (T.set_field r loc (Redact.tr_value tr), ts))
+  then Ok (Transforms.cnt_add cs label 1 (Transforms.r_rawlen r), (Transforms.set_field r loc (Redact.tr_value tr), ts))
   else Ok (cs, p).
 
 (* RunTransforms: first DROP wins; result (program with its new state, counters, record, PASS?) *)
-Fixpoint run_xtf (t : xtf) (cs : T.counters) (p : prec) {struct t} : outcome (xtf * T.counters * prec * bool) :=
+Fixpoint run_xtf (t : xtf) (cs : Transforms.counters) (p : prec) {struct t} : outcome (xtf * Transforms.counters * prec * bool) :=
   match t with
   | XBase b =>
-    '(b', cs', r', pass) <~ T.run_tf O b cs (fst p) ;; Ok (XBase b', cs', (r', snd p), pass)
+    '(b', cs', r', pass) <~ Transforms.run_tf O b cs (fst p) ;; Ok (XBase b', cs', (r', snd p), pass)
   | XIf m th =>
-    if T.matches O m (T.r_fields (fst p)) then
+    if Transforms.matches O m (Transforms.r_fields (fst p)) then
       '(th', cs', p', pass) <~ run_xtfs th cs p ;; Ok (XIf m th', cs', p', pass)
     else Ok (t, cs, p, true)
   | XSwitch ks =>
@@ -136,7 +130,7 @@ Fixpoint run_xtf (t : xtf) (cs : T.counters) (p : prec) {struct t} : outcome (xt
   | XRedact loc label =>
     '(cs', p') <~ run_redact loc label cs p ;; Ok (t, cs', p', true)
   end
-with run_xtfs (ts : xtfs) (cs : T.counters) (p : prec) {struct ts} : outcome (xtfs * T.counters * prec * bool) :=
+with run_xtfs (ts : xtfs) (cs : Transforms.counters) (p : prec) {struct ts} : outcome (xtfs * Transforms.counters * prec * bool) :=
   match ts with
   | XNil => Ok (XNil, cs, p, true)
   | XCons t ts' =>
@@ -145,11 +139,11 @@ with run_xtfs (ts : xtfs) (cs : T.counters) (p : prec) {struct ts} : outcome (xt
       '(ts'', cs'', p'', pass') <~ run_xtfs ts' cs' p' ;; Ok (XCons t' ts'', cs'', p'', pass')
     else Ok (XCons t' ts', cs', p', false)
   end
-with run_xcases (ks : xcases) (cs : T.counters) (p : prec) {struct ks} : outcome (xcases * T.counters * prec * bool) :=
+with run_xcases (ks : xcases) (cs : Transforms.counters) (p : prec) {struct ks} : outcome (xcases * Transforms.counters * prec * bool) :=
   match ks with
   | XKNil => Ok (XKNil, cs, p, true)
   | XKCons m th ks' =>
-    if T.matches O m (T.r_fields (fst p)) then
+    if Transforms.matches O m (Transforms.r_fields (fst p)) then
       '(th', cs', p', pass) <~ run_xtfs th cs p ;; Ok (XKCons m th' ks', cs', p', pass)
     else
       '(ks'', cs', p', pass) <~ run_xcases ks' cs p ;; Ok (XKCons m th ks'', cs', p', pass)
@@ -160,7 +154,7 @@ End Run.
 (* does the program register a custom counter (RegisterCustomCounter: drop labels, errorLabel, metricLabel)? *)
 Fixpoint xtf_registers (t : xtf) : bool :=
   match t with
-  | XBase b => negb (S.is_nil (T.reg_tf b []))
+  | XBase b => negb (Serializer.is_nil (Transforms.reg_tf b []))
   | XIf _ th => xtfs_registers th
   | XSwitch ks => xcases_registers ks
   | XBlock b => xtfs_registers b
@@ -176,18 +170,18 @@ with xcases_registers (ks : xcases) : bool :=
 (* 3. configuration and state                                                                       *)
 
 Record out_cfg := {
-  oc_ser : S.ser_config;          (* serialization section of a fluentdForward output *)
-  oc_pack : K.config              (* message mode, chunk limits (the tag is the pipeline's) *)
+  oc_ser : Serializer.ser_config;          (* serialization section of a fluentdForward output *)
+  oc_pack : Packer.config              (* message mode, chunk limits (the tag is the pipeline's) *)
 }.
 
 Record config := {
-  c_parser : Ps.config;           (* InputLogMaxMessageBytes, InputLogMaxRecordBytes, levelMapping *)
+  c_parser : Parser.config;           (* InputLogMaxMessageBytes, InputLogMaxRecordBytes, levelMapping *)
   c_nfields : nat;                (* schema.maxFields = len(record.Fields) *)
   c_schema : list bytes;          (* schema.fields *)
   c_locs : field_locs;
   c_extract : xtfs;               (* inputs[0].extractions as constructed for a connection *)
   c_okeys : list nat;             (* orchestration.keys as locators *)
-  c_tag : list R.tpart;           (* orchestration.tag compiled by NewTagBuilder *)
+  c_tag : list Routing.tpart;           (* orchestration.tag compiled by NewTagBuilder *)
   c_mkeys : list nat;             (* metricKeys as locators *)
   c_transforms : xtfs;            (* transformations as constructed for a pipeline *)
   c_outputs : list out_cfg;       (* outputBufferPairs *)
@@ -204,22 +198,22 @@ Record pinst := {
   pi_tag : bytes;
   pi_labels : list bytes;         (* label values curried into the pipeline's metric creator *)
   pi_tfs : xtfs;
-  pi_custom : T.counters;         (* labelled_records_total / labelled_record_bytes_total, summed over the metric key sets *)
-  pi_msets : R.mstate;            (* LogProcessCounterSet.keySetPairs *)
+  pi_custom : Transforms.counters;         (* labelled_records_total / labelled_record_bytes_total, summed over the metric key sets *)
+  pi_msets : Routing.mstate;            (* LogProcessCounterSet.keySetPairs *)
   pi_mlabels : list (list bytes); (* the label values handed to the registry for each new metric key set *)
   pi_passed : N;
   pi_dropped : N;
-  pi_sers : list S.serializer;
-  pi_packs : list (K.pstate bytes)
+  pi_sers : list Serializer.serializer;
+  pi_packs : list (Packer.pstate bytes)
 }.
 
 (* the part shared by all connections, and the part owned by one connection *)
-Record gstate := { g_route : R.gstate; g_pipes : list pinst }.
-Record cstate := { cs_input : Ps.counters; cs_extract : xtfs; cs_ecnt : T.counters; cs_local : R.amap }.
+Record gstate := { g_route : Routing.gstate; g_pipes : list pinst }.
+Record cstate := { cs_input : Parser.counters; cs_extract : xtfs; cs_ecnt : Transforms.counters; cs_local : Routing.amap }.
 
-Definition g_init : gstate := {| g_route := R.g_init; g_pipes := [] |}.
+Definition g_init : gstate := {| g_route := Routing.g_init; g_pipes := [] |}.
 Definition new_conn (cfg : config) : cstate :=
-  {| cs_input := Ps.counters_zero; cs_extract := c_extract cfg; cs_ecnt := []; cs_local := [] |}.
+  {| cs_input := Parser.counters_zero; cs_extract := c_extract cfg; cs_ecnt := []; cs_local := [] |}.
 
 (* ================================================================================================ *)
 (* 4. the Prometheus label rule (oracle) and the two places where field values become label values   *)
@@ -252,11 +246,11 @@ Fixpoint extract_keys (locs : list nat) (fields : list bytes) : outcome (list by
   end.
 
 (* MustNewEventSerializer for every output *)
-Fixpoint new_serializers (cfg : config) (outs : list out_cfg) : outcome (list S.serializer) :=
+Fixpoint new_serializers (cfg : config) (outs : list out_cfg) : outcome (list Serializer.serializer) :=
   match outs with
   | [] => Ok []
   | o :: outs' =>
-    match S.new_serializer (c_schema cfg) (oc_ser o) (c_buflen cfg) with
+    match Serializer.new_serializer (c_schema cfg) (oc_ser o) (c_buflen cfg) with
     | Ok s => r <~ new_serializers cfg outs' ;; Ok (s :: r)
     | _ => Panic site_new_serializer
     end
@@ -264,17 +258,17 @@ Fixpoint new_serializers (cfg : config) (outs : list out_cfg) : outcome (list S.
 
 (* byKeySetOrchestrator.newPipeline after the tag is built: metric creator with the key values as labels,
    startPipeline = transforms, process counter, serializers, chunk makers *)
-Definition new_pinst (cfg : config) (p : R.pipeline) : outcome pinst :=
+Definition new_pinst (cfg : config) (p : Routing.pipeline) : outcome pinst :=
   sers <~ new_serializers cfg (c_outputs cfg) ;;
-  Ok {| pi_keys := R.p_keys p; pi_tag := R.p_tag p;
-        pi_labels := metric_label_values (c_fix_labels cfg) (R.p_keys p);
+  Ok {| pi_keys := Routing.p_keys p; pi_tag := Routing.p_tag p;
+        pi_labels := metric_label_values (c_fix_labels cfg) (Routing.p_keys p);
         pi_tfs := c_transforms cfg; pi_custom := [];
-        pi_msets := R.m_init; pi_mlabels := [];
+        pi_msets := Routing.m_init; pi_mlabels := [];
         pi_passed := 0; pi_dropped := 0;
         pi_sers := sers;
-        pi_packs := map (fun _ => K.pstate_init) (c_outputs cfg) |}.
+        pi_packs := map (fun _ => Packer.pstate_init) (c_outputs cfg) |}.
 
-Fixpoint new_pinsts (cfg : config) (ps : list R.pipeline) : outcome (list pinst) :=
+Fixpoint new_pinsts (cfg : config) (ps : list Routing.pipeline) : outcome (list pinst) :=
   match ps with
   | [] => Ok []
   | p :: ps' => x <~ new_pinst cfg p ;; r <~ new_pinsts cfg ps' ;; Ok (x :: r)
@@ -283,9 +277,9 @@ Fixpoint new_pinsts (cfg : config) (ps : list R.pipeline) : outcome (list pinst)
 (* LocalCachedMap.GetOrCreate (C06's model) + the construction of the pipelines it created *)
 Definition get_or_create (cfg : config) (g : gstate) (c : cstate) (okeys : list bytes)
   : outcome (gstate * cstate * nat) :=
-  match R.local_get_or_create (c_tag cfg) (g_route g) (cs_local c) okeys with
+  match Routing.local_get_or_create (c_tag cfg) (g_route g) (cs_local c) okeys with
   | Ok (rg, lm, i) =>
-    news <~ new_pinsts cfg (skipn (length (g_pipes g)) (R.g_pipes rg)) ;;
+    news <~ new_pinsts cfg (skipn (length (g_pipes g)) (Routing.g_pipes rg)) ;;
     Ok ({| g_route := rg; g_pipes := g_pipes g ++ news |},
         {| cs_input := cs_input c; cs_extract := cs_extract c; cs_ecnt := cs_ecnt c; cs_local := lm |}, i)
   | Err e => Err e
@@ -297,8 +291,8 @@ Definition get_or_create (cfg : config) (g : gstate) (c : cstate) (okeys : list 
 
 (* SelectMetricKeySet *)
 Definition select_metric_key_set (cfg : config) (pi : pinst) (mkeys : list bytes) : outcome pinst :=
-  let (m', i) := R.metric_select (pi_msets pi) mkeys in
-  if (i <? length (R.m_sets (pi_msets pi)))%nat then Ok pi          (* found *)
+  let (m', i) := Routing.metric_select (pi_msets pi) mkeys in
+  if (i <? length (Routing.m_sets (pi_msets pi)))%nat then Ok pi          (* found *)
   else
     let lvs := metric_label_values (c_fix_labels cfg) mkeys in
     (* one WithLabelValues per registered custom counter vector *)
@@ -307,24 +301,24 @@ Definition select_metric_key_set (cfg : config) (pi : pinst) (mkeys : list bytes
           pi_custom := pi_custom pi; pi_msets := m'; pi_mlabels := pi_mlabels pi ++ [lvs];
           pi_passed := pi_passed pi; pi_dropped := pi_dropped pi; pi_sers := pi_sers pi; pi_packs := pi_packs pi |}.
 
-Definition with_tag (k : K.config) (tag : bytes) : K.config :=
-  {| K.cf_kind := K.cf_kind k; K.cf_as_array := K.cf_as_array k; K.cf_compress := K.cf_compress k;
-     K.cf_max_records := K.cf_max_records k; K.cf_max_bytes := K.cf_max_bytes k;
-     K.cf_suffix := K.cf_suffix k; K.cf_tag := tag |}.
+Definition with_tag (k : Packer.config) (tag : bytes) : Packer.config :=
+  {| Packer.cf_kind := Packer.cf_kind k; Packer.cf_as_array := Packer.cf_as_array k; Packer.cf_compress := Packer.cf_compress k;
+     Packer.cf_max_records := Packer.cf_max_records k; Packer.cf_max_bytes := Packer.cf_max_bytes k;
+     Packer.cf_suffix := Packer.cf_suffix k; Packer.cf_tag := tag |}.
 
 Definition stream_len (s : bytes) : Z := Z.of_nat (length s).
 
 (* for i, output := range worker.outputList: SerializeRecord, WriteStream *)
-Fixpoint run_outputs (cfg : config) (tag : bytes) (clk : Z) (outs : list out_cfg) (sers : list S.serializer)
-         (packs : list (K.pstate bytes)) (rec : S.record)
-  : outcome (list (K.pstate bytes) * list bytes * list (option (K.echunk bytes))) :=
+Fixpoint run_outputs (cfg : config) (tag : bytes) (clk : Z) (outs : list out_cfg) (sers : list Serializer.serializer)
+         (packs : list (Packer.pstate bytes)) (rec : Serializer.record)
+  : outcome (list (Packer.pstate bytes) * list bytes * list (option (Packer.echunk bytes))) :=
   match outs with
   | [] => Ok ([], [], [])
   | o :: outs' =>
     match sers, packs with
     | s :: sers', p :: packs' =>
       stream <~ PipelineSerializer.serialize_record_fixed (c_fix_ser cfg) s rec ;;
-      let (p', ch) := K.write_stream bytes stream_len (with_tag (oc_pack o) tag) clk p stream in
+      let (p', ch) := Packer.write_stream bytes stream_len (with_tag (oc_pack o) tag) clk p stream in
       '(ps, ss, cs) <~ run_outputs cfg tag clk outs' sers' packs' rec ;;
       Ok (p' :: ps, stream :: ss, ch :: cs)
     | _, _ => Panic site_pipe
@@ -336,11 +330,11 @@ Inductive rec_result :=
 | RDropParse                                  (* malformed: rejected by the parser, counted as dropped input *)
 | RDropExtract                                (* DROP in the extractions: released (input counters: passed) *)
 | RDropTransform (pipe : nat)                 (* DROP in the pipeline's transforms: counted dropped there *)
-| RPassed (pipe : nat) (streams : list bytes) (chunks : list (option (K.echunk bytes))).
+| RPassed (pipe : nat) (streams : list bytes) (chunks : list (option (Packer.echunk bytes))).
 
-Definition to_srecord (p : prec) : S.record :=
-  {| S.r_fields := T.r_fields (fst p); S.r_unix := fst (snd p); S.r_nsec := snd (snd p);
-     S.r_unescaped := T.r_unesc (fst p) |}.
+Definition to_srecord (p : prec) : Serializer.record :=
+  {| Serializer.r_fields := Transforms.r_fields (fst p); Serializer.r_unix := fst (snd p); Serializer.r_nsec := snd (snd p);
+     Serializer.r_unescaped := Transforms.r_unesc (fst p) |}.
 
 Fixpoint set_pinst (l : list pinst) (i : nat) (x : pinst) : list pinst :=
   match l, i with
@@ -350,11 +344,11 @@ Fixpoint set_pinst (l : list pinst) (i : nat) (x : pinst) : list pinst :=
   end.
 
 Section Process.
-Variable O : T.oracles.
+Variable O : Transforms.oracles.
 
 (* the worker of pipeline [idx] *)
 Definition worker_step (cfg : config) (pi : pinst) (idx : nat) (clk : Z) (p : prec) : outcome (pinst * rec_result) :=
-  mkeys <~ extract_keys (c_mkeys cfg) (T.r_fields (fst p)) ;;
+  mkeys <~ extract_keys (c_mkeys cfg) (Transforms.r_fields (fst p)) ;;
   pi1 <~ select_metric_key_set cfg pi mkeys ;;
   '(tfs', cnt', p2, pass) <~ run_xtfs O (c_local_off cfg) (pi_tfs pi1) (pi_custom pi1) p ;;
   if pass then
@@ -369,22 +363,22 @@ Definition worker_step (cfg : config) (pi : pinst) (idx : nat) (clk : Z) (p : pr
            pi_passed := pi_passed pi1; pi_dropped := pi_dropped pi1 + 1; pi_sers := pi_sers pi1; pi_packs := pi_packs pi1 |},
         RDropTransform idx).
 
-Definition with_input (c : cstate) (cnt : Ps.counters) : cstate :=
+Definition with_input (c : cstate) (cnt : Parser.counters) : cstate :=
   {| cs_input := cnt; cs_extract := cs_extract c; cs_ecnt := cs_ecnt c; cs_local := cs_local c |}.
 
 (* a record the parser has accepted (and counted): everything after syslogParser.Parse.
    [now] = the receiver's timestamp (sess.now), [clk] = the clock reading a new chunk id would get.
    The input counters are not read here, only carried along. *)
-Definition process_parsed (cfg : config) (g : gstate) (c : cstate) (now : Z * Z) (clk : Z) (r : Ps.record)
+Definition process_parsed (cfg : config) (g : gstate) (c : cstate) (now : Z * Z) (clk : Z) (r : Parser.record)
   : outcome (gstate * cstate * rec_result) :=
   fields <~ place (c_nfields cfg) (c_locs cfg) r ;;
-  let r0 := {| T.r_fields := fields; T.r_rawlen := Z.of_nat (Ps.raw_length r); T.r_unesc := Ps.unescaped r |} in
+  let r0 := {| Transforms.r_fields := fields; Transforms.r_rawlen := Z.of_nat (Parser.raw_length r); Transforms.r_unesc := Parser.unescaped r |} in
   (* compositeParser.Parse *)
   '(ex', ecnt', p1, pass) <~ run_xtfs O (c_local_off cfg) (cs_extract c) (cs_ecnt c) (r0, now) ;;
   let c1 := {| cs_input := cs_input c; cs_extract := ex'; cs_ecnt := ecnt'; cs_local := cs_local c |} in
   if negb pass then Ok (g, c1, RDropExtract) else
   (* byKeySetOrchestratorSink.Accept *)
-  okeys <~ extract_keys (c_okeys cfg) (T.r_fields (fst p1)) ;;
+  okeys <~ extract_keys (c_okeys cfg) (Transforms.r_fields (fst p1)) ;;
   '(g1, c2, idx) <~ get_or_create cfg g c1 okeys ;;
   match nth_error (g_pipes g1) idx with
   | None => Panic site_pipe
@@ -396,7 +390,7 @@ Definition process_parsed (cfg : config) (g : gstate) (c : cstate) (now : Z * Z)
 (* ONE record: the bytes handed to logParsingReceiverSink.Accept, through everything *)
 Definition process_record (cfg : config) (g : gstate) (c : cstate) (now : Z * Z) (clk : Z) (input : bytes)
   : outcome (gstate * cstate * rec_result) :=
-  match Ps.parse (c_parser cfg) (cs_input c) input with
+  match Parser.parse (c_parser cfg) (cs_input c) input with
   | (Panic s, _) => Panic s
   | (Err e, _) => Err e
   | (Ok None, cnt) => Ok (g, with_input c cnt, RDropParse)
@@ -418,23 +412,23 @@ Fixpoint process_records (cfg : config) (g : gstate) (c : cstate) (now : Z * Z) 
 (* 7. one TCP connection: what the connection's reader returns (data in any fragmentation, with or without  *)
 (*    deadline renewal, timeouts, finally an error / EOF) -> runConnection + multiLineReader -> the records   *)
 
-Definition record_limit (cfg : config) : nat := N.to_nat (Ps.max_rec (c_parser cfg)).
+Definition record_limit (cfg : config) : nat := N.to_nat (Parser.max_rec (c_parser cfg)).
 
-Definition conn_records (cfg : config) (evs : list F.event) : outcome (list bytes) :=
-  match F.run_ops F.trs (F.conn_ops evs) (F.new_mlr (c_linebuf cfg) (record_limit cfg)) [] with
+Definition conn_records (cfg : config) (evs : list Framing.event) : outcome (list bytes) :=
+  match Framing.run_ops Framing.trs (Framing.conn_ops evs) (Framing.new_mlr (c_linebuf cfg) (record_limit cfg)) [] with
   | Ok (_, records) => Ok records
   | Err e => Err e                     (* OutOfFuel: the read loop would spin on a full buffer *)
   | Panic s => Panic s
   end.
 
-Definition conn_run (cfg : config) (g : gstate) (now : Z * Z) (clk : Z) (evs : list F.event)
+Definition conn_run (cfg : config) (g : gstate) (now : Z * Z) (clk : Z) (evs : list Framing.event)
   : outcome (gstate * cstate * list rec_result) :=
   records <~ conn_records cfg evs ;;
   process_records cfg g (new_conn cfg) now clk records.
 
 (* the agent over its life: one connection after the other on the same shared state (a client that reconnects
    after its bad input, or after an abrupt disconnect, is the next element of the list) *)
-Fixpoint agent_run (cfg : config) (g : gstate) (now : Z * Z) (clk : Z) (conns : list (list F.event))
+Fixpoint agent_run (cfg : config) (g : gstate) (now : Z * Z) (clk : Z) (conns : list (list Framing.event))
   : outcome (gstate * list (list rec_result)) :=
   match conns with
   | [] => Ok (g, [])
